@@ -14,17 +14,17 @@ def network(us_net="A", us_sp="A"):
     sp = [Species("A", density={"e0": 2.5, "e1": 0.75}, chstt={"e1": True}, units_system=SYS[us_sp]),
           Species("B", density={"e2": 4.0, "default": 1.25}, chstt=True, units_system=SYS[us_sp]),
           Species("C", density=3.5, chstt={"e0": 1, "default": 0}, units_system=SYS[us_sp]),
-          Species("D", units_system=SYS[us_sp])]
+          Species("D", chstt={"e1": False, "e2": 0, "default": True}, density={"e0": 0, "default": 1.5}, units_system=SYS[us_sp])]
     return RDNetwork(species=sp, reactions=[], environments=ENVS, units_system=SYS[us_net])
 
 
 def expected_density(s, env):
     """molecules... in the species' own units: the per-environment value, else 'default', else 0"""
-    return [{"e0": 2.5, "e1": 0.75}.get(env, 0.0), {"e2": 4.0}.get(env, 1.25), 3.5, 0.0][s]
+    return [{"e0": 2.5, "e1": 0.75}.get(env, 0.0), {"e2": 4.0}.get(env, 1.25), 3.5, {"e0": 0.0}.get(env, 1.5)][s]
 
 
 def expected_flag(s, env):
-    return [1 if env == "e1" else 0, 1, 1 if env == "e0" else 0, 0][s]
+    return [1 if env == "e1" else 0, 1, 1 if env == "e0" else 0, 1 if env == "e0" else 0][s]
 
 
 def grid_system(w, h, d, envmap, us_net="A", us_sp="A", us_space="A", us_sys="A", vol=8.0):
